@@ -162,7 +162,7 @@ def ob_select(cx):
 
 def obligations(tier):
     q = tier == "quick"
-    p = dict(nconflicts=1 if q else 2, npaths=1, lpath=3 if q else 2, allow_empty=True)
+    p = dict(nconflicts=1, npaths=1, lpath=3 if q else 4, allow_empty=True)
     return [Ob("select_conflicts", ob_select, [(CF, dict(symdict=True))], p, 900 if q else 7200, 3 if q else 1,
                ["selected", "kept", "recursive"], setup=setup,
                bounds="<= %(nconflicts)d conflicts (text / path conflicts) with symbolic paths of <= %(lpath)d chars and symbolic "
